@@ -361,3 +361,31 @@ Proof.
   - destruct (info_eqb _ _); discriminate.
   - intros _ Hin. destruct (in_pos _ _ Hin) as [p Hp]. congruence.
 Qed.
+
+(* --- re-admission of a follower --- *)
+Lemma upsert_in l id j : In id (map fst (upsert l id j)).
+Proof.
+  induction l as [|h r IH]; cbn [upsert]; [left; reflexivity|].
+  destruct (N.eqb (fst h) id) eqn:E; cbn [map fst]; [left; reflexivity|right; exact IH].
+Qed.
+
+Lemma registered_is_numbered ops name join fail : mem name fail = false ->
+  let s := fst (sd_run sd_init (ops ++ [SAdd name join])) in
+  exists p, pos name (sd_names s) = Some p /\
+            sd_follower (fst (sd_step s (SRound fail))) name = Some ((2 + p)%nat, S (length (sd_names s))).
+Proof.
+  intros Hf s.
+  assert (I : SdInv s) by (apply sd_run_inv; constructor; constructor).
+  assert (Hin : In name (sd_names s)).
+  { unfold sd_names. apply (Permutation_in name (Permutation_map fst (Permutation_sym (sort_perm (sd_services s))))).
+    unfold s. clear.
+    assert (G : forall l s0, sd_services (fst (sd_run s0 (l ++ [SAdd name join]))) =
+                             upsert (sd_services (fst (sd_run s0 l))) name join).
+    { intros l. induction l as [|o r IH]; intros s0.
+      - cbn [app sd_run]. destruct (sd_step s0 (SAdd name join)) as [s1 x] eqn:E. cbn in E. injection E as <- _. reflexivity.
+      - cbn [app sd_run]. destruct (sd_step s0 o) as [s1 x]. specialize (IH s1).
+        destruct (sd_run s1 (r ++ [SAdd name join])) as [s2 xs]. destruct (sd_run s1 r) as [s3 ys]. exact IH. }
+    rewrite G. apply upsert_in. }
+  destruct (in_pos _ _ Hin) as [p Hp]. exists p. split; [exact Hp|].
+  destruct (round_spec s fail I) as (_ & _ & Hn). rewrite (Hn name). fold (sd_names s). rewrite Hp, Hf. reflexivity.
+Qed.
